@@ -99,7 +99,7 @@ def run(ctx):
             if n_ >= per:
                 bs = bytes.fromhex(cur[n_ - per]) + bs
                 st["curated"] = st.get("curated", 0) + 1
-            addr = rng.choice([0, 0x1000, 0x400000, 0x7ffffff0]) & ~3
+            addr = rng.choice([0, 0x1000, 0x400000, 0x7ffffff0]) & ~3 & ((1 << lifter.IRDst.size) - 1)
             try:
                 instr = m.mn.dis(bs, lifter.attrib)
             except Exception:
@@ -129,7 +129,12 @@ def run(ctx):
                 continue
             st["blocks"] += len(blocks)
             edges = [{"s": J.loc_name(s), "d": J.loc_name(d)} for s, d in ircfg.edges()]
-            items.append({"t": "lifted", "blocks": blocks, "regs": regs, "irdst": lifter.IRDst.name,
+            offs = []
+            for lk in loc_db.loc_keys:
+                off = loc_db.get_location_offset(lk)
+                if off is not None and off < (1 << lifter.IRDst.size):
+                    offs.append({"v": X.ibytes(off, lifter.IRDst.size), "loc": J.loc_name(lk)})
+            items.append({"t": "lifted", "blocks": blocks, "regs": regs, "irdst": lifter.IRDst.name, "offs": offs[-400:] + [{"v": [], "loc": "-"}],
                           "edges": edges + [{"s": "-", "d": "-"}]})
             meta.append((name, str(instr), bs[:instr.l].hex(), "%s:%s" % (fam_of(name), mnemo(name, instr))))
         stats[name] = st
